@@ -450,7 +450,10 @@ Definition localized_raw (sp : spec) (w : loc) (rh : bool) (s : dna) : lres spec
           end
       end
   | SEnforceChanges l idx ref mn am is100 =>
-      if negb is100 then LSome sp else
+      (* [is100] stands for "the percent parameter of the active mode is 100": amount_percent for an
+         objective (mn = None), minimum_percent for a constraint (mn = Some _).  localized() tests
+         amount_percent only, so a constraint-mode instance localizes to itself. *)
+      if negb is100 || (match mn with Some _ => true | None => false end) then LSome sp else
       match idx with
       | Some ix => let '(ni, nr) := filter_indices ix ref (lstart w) (lend w) in
                    LSome (SEnforceChanges l (Some ni) nr
